@@ -41,6 +41,9 @@ ArmBegin ==
 
 ArmInstalled == Step("ArmInstalled") /\ s.phase = "begun" /\ Ev.ok /\ s' = [s EXCEPT !.phase = "ready"]
 
+\* C09 through every fake! form: the same fake paired with a target of another kind is refused
+ArmWrong == Step("ArmWrong") /\ s.phase = "begun" /\ Ev.refused /\ Ev.cls = "sig-mismatch" /\ s' = [s EXCEPT !.phase = "done"]
+
 ArmCallBegin ==
   /\ Step("ArmCallBegin") /\ s.phase = "ready"
   /\ s' = [s EXCEPT !.phase = "incall", !.want = FakeCall(Ev.x)]
@@ -74,7 +77,7 @@ ArmChild ==
      \/ s.phase = "incall" /\ ~s.unwinds /\ s.want.res \in {"panic-args", "panic-over"} /\ Ev.signal = 6
   /\ s' = [s EXCEPT !.phase = "done"]
 
-TraceNext == ArmBegin \/ ArmInstalled \/ ArmCallBegin \/ ArmPanic \/ ArmCall \/ ArmExit \/ ArmChild
+TraceNext == ArmWrong \/ ArmBegin \/ ArmInstalled \/ ArmCallBegin \/ ArmPanic \/ ArmCall \/ ArmExit \/ ArmChild
 TraceSpec == TraceInit /\ [][TraceNext]_tvars
 Track == TrackProgress(sc, l)
 Post == PrintProgress
